@@ -407,11 +407,14 @@ Print Assumptions C03_volatile_never_known.
 (* hence every fold that follows a call reads the run-time value: for any number of calls, whatever re-binds the
    written names between them, on every control-flow path, the firmware (the residual blocks, the residual body inlined
    at each call) outputs what Python outputs (the body run at each call in the module state of that moment) - inside the
-   guard calls_ok: the single-statement side conditions of every block, nothing else *)
-Theorem C03_calls_partial : forall prefix body first rest orc out,
-  calls_ok prefix body first rest = true ->
+   guard calls_ok: the single-statement side conditions of every block, nothing else.  In BOTH scopes: the calling
+   sequence at module level (in_fn = false) and as the body of another function (in_fn = true; since the repair of
+   F-C03-stale-after-call-in-function a function body forgets what the functions it calls write - when its parsing starts
+   and after every assignment statement) *)
+Theorem C03_calls_partial : forall in_fn prefix body first rest orc out,
+  calls_ok in_fn prefix body first rest = true ->
   python_calls_outputs prefix body first rest orc = Some out ->
-  firmware_calls_outputs false prefix body first rest orc = Some out.
+  firmware_calls_outputs in_fn prefix body first rest orc = Some out.
 Proof. exact calls_sound. Qed.
 Print Assumptions C03_calls_partial.
 
@@ -419,7 +422,7 @@ Print Assumptions C03_calls_partial.
    length is read at run time; with led.flash_pattern(pat) in place of the len the script is rejected (Python flashes
    1, 0, 1, 1: nothing to bake) *)
 Example C03_call_after_tuple_rebind :
-  calls_ok w_pat0 w_grow [] [w_tuple_rebind; [SObs (OLen n_pat)]] = true /\
+  calls_ok false w_pat0 w_grow [] [w_tuple_rebind; [SObs (OLen n_pat)]] = true /\
   python_calls_outputs w_pat0 w_grow [] [w_tuple_rebind; [SObs (OLen n_pat)]] [] = Some [VInt 4] /\
   firmware_calls_outputs false w_pat0 w_grow [] [w_tuple_rebind; [SObs (OLen n_pat)]] [] = Some [VInt 4] /\
   option_map (fun r => match r with (_, _, _, rs, _) => rs end) (tcalls false w_pat0 w_grow [] [w_tuple_rebind; [SObs (OLen n_pat)]]) =
@@ -430,20 +433,32 @@ Proof. exact call_after_tuple_rebind. Qed.
 Print Assumptions C03_call_after_tuple_rebind.
 
 Example C03_calls_nonvacuous :
-  calls_ok w_pat0 w_grow [] w_forms = true /\
+  calls_ok false w_pat0 w_grow [] w_forms = true /\
   python_calls_outputs w_pat0 w_grow [] w_forms [1%nat; 2%nat] = Some [VInt 5; VInt 2; VInt 3] /\
   python_calls_outputs w_pat0 w_grow [] w_forms [0%nat; 0%nat] = Some [VInt 5; VInt 6; VInt 7] /\
   firmware_calls_outputs false w_pat0 w_grow [] w_forms [0%nat; 0%nat] = Some [VInt 5; VInt 6; VInt 7].
 Proof. exact call_forms_nonvacuous. Qed.
 Print Assumptions C03_calls_nonvacuous.
 
-(* the re-forget is forced, and the transpiler omits it inside function bodies (`if scope != "function"`): the same
-   calling sequence in the body of another function - def use(): global pat; pat = [1, 0, 1]; grow(); mon.write(len(pat)) -
-   bakes len(pat) = 3 where Python prints 4 (finding F-C03-stale-after-call-in-function) *)
-Theorem C03_call_in_function_refuted :
-  firmware_calls_outputs true w_pat0 w_grow [SAssign n_pat (EList [EInt 1; EInt 0; EInt 1])] [[SObs (OLen n_pat)]] [] = Some [VInt 3] /\
-  python_calls_outputs w_pat0 w_grow [SAssign n_pat (EList [EInt 1; EInt 0; EInt 1])] [[SObs (OLen n_pat)]] [] = Some [VInt 4] /\
-  firmware_calls_outputs false w_pat0 w_grow [SAssign n_pat (EList [EInt 1; EInt 0; EInt 1])] [[SObs (OLen n_pat)]] [] = Some [VInt 4] /\
-  calls_ok w_pat0 w_grow [SAssign n_pat (EList [EInt 1; EInt 0; EInt 1])] [[SObs (OLen n_pat)]] = true.
-Proof. exact call_in_function_refuted. Qed.
-Print Assumptions C03_call_in_function_refuted.
+(* the same calling sequence in the body of another function - pat = [1, 0]; def grow(): pat.append(1); def use(): global pat;
+   pat = [1, 0, 1]; grow(); mon.write(len(pat)); use() - the witness of the repaired finding
+   F-C03-stale-after-call-in-function: inside the guard, the residual reads the length at run time and prints 4, as Python;
+   with led.flash_pattern(pat) in place of the len the script is rejected.  Replaces C03_call_in_function_refuted (the
+   transpiler used to skip the re-forget inside function bodies, `if scope != "function"`, and baked len(pat) = 3) *)
+Theorem C03_call_in_function_repaired :
+  calls_ok true w_pat0 w_grow w_use_first [[SObs (OLen n_pat)]] = true /\
+  python_calls_outputs w_pat0 w_grow w_use_first [[SObs (OLen n_pat)]] [] = Some [VInt 4] /\
+  firmware_calls_outputs true w_pat0 w_grow w_use_first [[SObs (OLen n_pat)]] [] = Some [VInt 4] /\
+  option_map (fun r => match r with (_, _, _, rs, _) => rs end) (tcalls true w_pat0 w_grow w_use_first [[SObs (OLen n_pat)]]) =
+    Some [[SObs (OLen n_pat)]] /\
+  tcalls true w_pat0 w_grow w_use_first [[SObs (OFlash n_pat)]] = None.
+Proof. exact call_in_function_repaired. Qed.
+Print Assumptions C03_call_in_function_repaired.
+
+Example C03_calls_in_function_nonvacuous :
+  calls_ok true w_pat0 w_grow [] w_forms = true /\
+  python_calls_outputs w_pat0 w_grow [] w_forms [1%nat; 2%nat] = Some [VInt 5; VInt 2; VInt 3] /\
+  firmware_calls_outputs true w_pat0 w_grow [] w_forms [1%nat; 2%nat] = Some [VInt 5; VInt 2; VInt 3] /\
+  firmware_calls_outputs true w_pat0 w_grow [] w_forms [0%nat; 0%nat] = Some [VInt 5; VInt 6; VInt 7].
+Proof. exact call_in_function_forms. Qed.
+Print Assumptions C03_calls_in_function_nonvacuous.
